@@ -9,6 +9,7 @@ import (
 	"fmt"
 	"reflect"
 	"sort"
+	"strings"
 	"testing"
 
 	"jetverif/core"
@@ -198,7 +199,19 @@ func (g *c13Gen) tryStmt(inBlockWithContent bool) []*mj.Node {
 	tv := g.id("tv")
 	bv := g.id("bodyvar")
 	g.decls = append(g.decls, bv)
-	body := append([]*mj.Node{mj.Text("<try>"), mj.Let(bv, mj.Str("b"))}, g.path(depth, core)...)
+	lead := []*mj.Node{mj.Text("<try>"), mj.Let(bv, mj.Str("b"))}
+	if g.n(0, 2, "bodySafeWriter") == 0 {
+		// what a SafeWriter command prints belongs to the body like everything else
+		w := []string{"raw", "unsafe", "safeHtml", "safeJs"}[g.n(0, 3, "bodyWriter")]
+		lead = append(lead, mj.Text("(sw:"), mj.Print(mj.Pipe(mj.Str("<"+w+">"), w)), mj.Text(")"))
+		g.labels["body-prints-through-safewriter"] = true
+	}
+	if g.n(0, 5, "bodyLong") == 0 {
+		// more than a few KiB before the failing point: buffering must not depend on the amount
+		lead = append(lead, mj.Text(strings.Repeat("0123456789abcdef", 300+g.n(0, 300, "bodyLongLen"))))
+		g.labels["body-longer-than-4KiB"] = true
+	}
+	body := append(lead, g.path(depth, core)...)
 	body = append(body, mj.Text("</try>"))
 	n := &mj.Node{K: "try", Body: body}
 	if fails && g.n(0, 7, "silentBody") == 0 {
